@@ -34,16 +34,16 @@ func (o c12Op) String() string {
 	switch o.kind {
 	case "parse-url":
 		return fmt.Sprintf("parse-url(%q)", o.raw)
-	case "unmarshal-document", "unmarshal-partial":
+	case "unmarshal-document", "unmarshal-partial", "roundtrip-document":
 		return fmt.Sprintf("%s(%s)", o.kind, o.payload)
-	case "new-set-get", "marshal":
+	case "new-set-get", "marshal", "marshal-softcol":
 		return fmt.Sprintf("%s(%s %s)", o.kind, o.typ, gen.ShowVals(o.vals))
 	}
 
 	return fmt.Sprintf("%s(%q)", o.kind, o.typ)
 }
 
-var c12Kinds = []string{"parse-url", "unmarshal-document", "unmarshal-partial", "new-set-get", "new-direct", "marshal", "has-type", "get-type", "check", "rels"}
+var c12Kinds = []string{"parse-url", "unmarshal-document", "unmarshal-partial", "new-set-get", "new-direct", "marshal", "marshal-softcol", "roundtrip-document", "has-type", "get-type", "check", "rels"}
 
 func drawOp(t *rapid.T, ss *gen.SchemaSpec) c12Op {
 	kind := rapid.SampledFrom(c12Kinds).Draw(t, "op")
@@ -51,8 +51,12 @@ func drawOp(t *rapid.T, ss *gen.SchemaSpec) c12Op {
 	// A hand-written type that stores a relationship under a key that is not its
 	// name cannot be marshaled (Get does not find the field); such types are
 	// only created, set, read and looked up.
-	if kind == "marshal" && ts.RelKeys != nil {
+	if (kind == "marshal" || kind == "marshal-softcol") && ts.RelKeys != nil {
 		kind = "new-set-get"
+	}
+
+	if kind == "roundtrip-document" && ts.RelKeys != nil {
+		kind = "unmarshal-document"
 	}
 
 	op := c12Op{kind: kind, typ: ts.Name, ts: ts}
@@ -60,7 +64,7 @@ func drawOp(t *rapid.T, ss *gen.SchemaSpec) c12Op {
 	switch kind {
 	case "parse-url":
 		op.raw = gen.URLRequest(t, ss, gen.URLOpts{Valid: rapid.Bool().Draw(t, "validurl")}).Render(t, "render")
-	case "unmarshal-document":
+	case "unmarshal-document", "roundtrip-document":
 		pc := gen.ResourcePayload(t, ts, gen.PayloadOpts{Canonical: true, AllFieldsOften: true})
 		op.payload = []byte(`{"data":` + pc.Text + `,"meta":{"k":1}}`)
 		op.resMeta = pc.ResMeta
@@ -68,7 +72,7 @@ func drawOp(t *rapid.T, ss *gen.SchemaSpec) c12Op {
 		pc := gen.ResourcePayload(t, ts, gen.PayloadOpts{Canonical: true})
 		op.payload = []byte(pc.Text)
 		op.resMeta = pc.ResMeta
-	case "new-set-get", "marshal":
+	case "new-set-get", "marshal", "marshal-softcol":
 		op.vals = gen.FillResource(t, gen.NewResource(ts), ts, "v")
 	case "has-type", "get-type":
 		if rapid.IntRange(0, 3).Draw(t, "unknown") == 0 {
@@ -153,6 +157,52 @@ func runOp(schema *jsonapi.Schema, ss *gen.SchemaSpec, op c12Op, held *[]c12Held
 		}
 
 		return "marshaled " + string(out)
+	case "marshal-softcol":
+		// A request's own collection of the type, typed from the schema
+		// (GetType), filled with resources of exactly that type.
+		typ := schema.GetType(op.typ)
+		col := &jsonapi.SoftCollection{}
+		col.SetType(&typ)
+
+		for i := 0; i < 2; i++ {
+			res := typ.New()
+
+			for _, k := range gen.SortedKeys(op.vals) {
+				res.Set(k, gen.Clone(op.vals[k]))
+			}
+
+			res.Set("id", fmt.Sprintf("%s-%d", op.vals["id"], i))
+			col.Add(res)
+		}
+
+		doc := &jsonapi.Document{Data: col, RelData: allRelData(ss)}
+
+		out, err := jsonapi.MarshalDocument(doc, allFieldsURL(ss, op.typ))
+		if err != nil {
+			return "error"
+		}
+
+		return "marshaled " + string(out)
+	case "roundtrip-document":
+		// The document a request read is written back (an echo).
+		doc, err := jsonapi.UnmarshalDocument(op.payload, schema)
+		if err != nil {
+			return "error"
+		}
+
+		res, _ := doc.Data.(jsonapi.Resource)
+		if res == nil {
+			return "no data"
+		}
+
+		doc.RelData = allRelData(ss)
+
+		out, err := jsonapi.MarshalDocument(doc, allFieldsURL(ss, res.GetType().Name, res.Get("id").(string)))
+		if err != nil {
+			return "error"
+		}
+
+		return "echoed " + string(out)
 	case "has-type":
 		return fmt.Sprintf("has %v", schema.HasType(op.typ))
 	case "get-type":
